@@ -14,6 +14,11 @@
       exceeds the cut-off, and otherwise the sum over the descriptors assigned to that grid point which differ from the query in some coordinate of
       weight * exp(-(nk_j + d2_j(descriptor, x_i)) / 2); the result is log(TOT(i, g)) - log(total grid weight).  pairwise_mahalanobis_distances is a modular callee (its formula is
       C15's subject): MD2(precision, row, row), called with squared=True and the configured cell; logsumexp: expn(result) = sum of expn of the entries (expn(-inf) = 0).
+  SparseKDE._computes_localized_bandwidth (the per-grid-point loop, modular over the callees above): in every iteration the population is measured around THIS grid point on the
+      grid with the grid weights, the configured cell and its current width; with fpoints > 0 the width is tuned by the fraction of points (tolerance one descriptor, global scale
+      = trace of the grid covariance), otherwise it is re-localised on the nearest-grid distance exactly when it is below the measured population; the bandwidth is estimated for
+      this grid point from the (tuned) local weights and stored with its covariance in slot i.  _tune_localization_factor_based_on_fraction_of_spread: the width of this grid point
+      becomes its nearest-grid distance and the population is re-measured around this grid point (repaired defect 14e9ec4: it used to pass all descriptors and the whole grid).
   SparseKDE._bandwidth_inv / _normkernels (cached properties): entry j is inv(bandwidth_[j]) / d*log(2 pi) + log|det bandwidth_[j]|, computed once after a fit and
       served from the cache afterwards; not available before fit.
 
@@ -480,7 +485,123 @@ def u_mixture(with_cell):
     return Unit(f'SparseKDE._computes_kernel_density_estimation[{"cell" if with_cell else "free"}]', body, funcs=funcs,
                 loops={(q, 0): LoopContract(inv_outer), (q, 1): LoopContract(inv_inner, hints=hints_inner)}, functions=[q])
 
-UNITS = [lambda: u_mixture(False), lambda: u_mixture(True), lambda: u_local_population(False), lambda: u_local_population(True), lambda: u_oas(), lambda: u_covariance(), lambda: u_bandwidth()] + [(lambda w, s_: (lambda: u_cached(w, s_)))(w, s_) for w in ('_bandwidth_inv', '_normkernels') for s_ in ('unfitted', 'first', 'cached')]
+# ------------------------------------------------------------------ localisation: the per-grid-point loop of the bandwidth estimation and the spread tuning
+def lp_contract():
+    """_local_population as a modular callee (its formula is proved above): records what it is called with, returns fresh local weights and a fresh population"""
+    def make_result(I, F):
+        g = I.A(F['grid_j']).shape[0]
+        wl = I.fresh_arr('wlocal', (g,)); num = I.fresh('population', RealS)
+        I.cur.setdefault('lp_calls', []).append(dict(cell=F['cell'], grid_j=F['grid_j'], grid_i=F['grid_i'], w=F['grid_j_weight'], s2=F['sigma_squared'], wl=wl, num=num))
+        return (wl, num)
+    return FuncContract(make_result=make_result)
+
+def is_row_of(I, r, X, idx):
+    """r is row idx of X (entry by entry)"""
+    R, A = I.A(r), I.A(X)
+    if R.ndim != 1: return BoolVal(False)
+    return And(BoolVal(R.ndim == 1), tz(R.shape[0]) == tz(A.shape[1]), ForAll([c_], Implies(And(0 <= c_, c_ < tz(A.shape[1])), R.elem(c_) == A.elem(idx, c_))))
+
+def u_tune_spread(with_cell):
+    q = KD + '._tune_localization_factor_based_on_fraction_of_spread'
+    def body(I):
+        g, d, n = I.fresh('g', IntS), I.fresh('d', IntS), I.fresh('n', IntS); I.assume(And(g >= 1, d >= 1, n >= 1))
+        I.cur = {}
+        X = I.fresh_arr('grid', (g, d)); sw = I.fresh_arr('grid_weights', (g,)); s2 = I.fresh_arr('sigma2', (g,)); fl = I.fresh_arr('flocal', (g,)); md = I.fresh_arr('mindist', (g,)); D = I.fresh_arr('descriptors', (n, d))
+        cell = I.fresh_arr('cell', (d,)) if with_cell else None
+        idx = I.fresh('idx', IntS); I.assume(And(0 <= idx, idx < g))
+        S0, F0, M0 = I.A(s2), I.A(fl), I.A(md)
+        cls = I.repo.get(KD); me = I.new_obj(cls, dict(cell=cell, descriptors=D))
+        r = I.call_func(I.find_method(cls, '_tune_localization_factor_based_on_fraction_of_spread'), [me, X, sw, s2, fl, idx, md], {})
+        rs2, rfl, rwl = r
+        calls = I.cur.get('lp_calls', [])
+        I.ob('post[C17]:the-local-population-is-recomputed-once', BoolVal(len(calls) == 1), kind='post')
+        if len(calls) != 1: return
+        c0 = calls[0]; S1, F1 = I.A(rs2), I.A(rfl)
+        a = I.fresh('a', IntS); I.assume(And(0 <= a, a < g, a != idx))
+        I.ob('post[C17]:the-localisation-width-of-this-grid-point-becomes-its-distance-to-the-nearest-other-grid-point', And(S1.elem(idx) == M0.elem(idx), S1.elem(a) == S0.elem(a)), kind='post')
+        I.ob('post[C17]:the-population-is-measured-around-THIS-grid-point-on-the-grid-with-the-grid-weights-the-configured-cell-and-the-new-width',
+             And(BoolVal(c0['cell'] is cell and c0['grid_j'].id == X.id and c0['w'].id == sw.id), is_row_of(I, c0['grid_i'], X, idx), to_real(tz(c0['s2'])) == M0.elem(idx)), kind='post')
+        I.ob('post[C17]:the-new-population-is-stored-for-this-grid-point-only-and-the-local-weights-are-returned', And(F1.elem(idx) == c0['num'], F1.elem(a) == F0.elem(a), BoolVal(isinstance(rwl, ArrRef) and rwl.id == c0['wl'].id)), kind='post')
+    return Unit(f'SparseKDE._tune_localization_factor_based_on_fraction_of_spread[{"cell" if with_cell else "free"}]', body, funcs={SK + '._local_population': lp_contract()}, functions=[q])
+
+def u_localized_bandwidth(mode):
+    """mode: 'fpoints' (tuning by the fraction of points) | 'fspread' (tuning by the fraction of spread, taken when the width is below the population)"""
+    q = KD + '._computes_localized_bandwidth'
+    def tune_contract(which):
+        def make_result(I, F):
+            g = I.A(F['X']).shape[0]
+            out = (I.fresh_arr('sigma2_t', (g,)), I.fresh_arr('flocal_t', (g,)), I.fresh_arr('wlocal_t', (g,)))
+            I.cur.setdefault('tune_calls', []).append(dict(which=which, args=dict(F), out=out)); return out
+        return FuncContract(make_result=make_result)
+    def bw_contract():
+        def make_result(I, F):
+            d = I.A(F['X']).shape[1]
+            h, cv = I.fresh_arr('h', (d, d)), I.fresh_arr('cov', (d, d))
+            I.cur.setdefault('bw_calls', []).append(dict(args=dict(F), h=h, cov=cv)); return (h, cv)
+        return FuncContract(make_result=make_result)
+    def cov_contract():
+        def make_result(I, F):
+            I.cur['global_cov_args'] = dict(F); d = I.A(F['X']).shape[1]; r = I.fresh_arr('globalcov', (d, d)); I.cur['global_cov'] = I.A(r); return r
+        return FuncContract(make_result=make_result)
+    def inv(I, F, i, gh):
+        c = I.cur; o = I.O(F['self']); B = I.A(o.attrs['bandwidth_']); C = I.A(o.attrs['_covariance'])
+        return [('[C17]one-bandwidth-and-one-covariance-per-grid-point', And(tz(B.shape[0]) == c['g'], tz(B.shape[1]) == c['d'], tz(B.shape[2]) == c['d'], tz(C.shape[0]) == c['g'], tz(C.shape[1]) == c['d'], tz(C.shape[2]) == c['d'])),
+                ('[C17]one-width-and-one-population-per-grid-point', And(tz(I.A(F['sigma2']).shape[0]) == c['g'], tz(I.A(F['flocal']).shape[0]) == c['g']))]
+    def hints(I, Fpre, F, i, gpre, gpost):
+        c = I.cur; o = I.O(F['self']); i = tz(i)
+        lp = c.get('lp_calls', []); tn = c.get('tune_calls', []); bw = c.get('bw_calls', [])
+        out = [('one-population-measurement-one-estimation-per-grid-point', BoolVal(len(lp) == 1 and len(bw) == 1))]
+        if len(lp) != 1 or len(bw) != 1: return out
+        S_pre = I.A(Fpre['sigma2'])
+        out.append(('the-population-is-measured-around-this-grid-point-on-the-grid-with-the-grid-weights-the-configured-cell-and-its-current-width',
+                    And(BoolVal(lp[0]['cell'] is c['cell'] and lp[0]['grid_j'].id == c['X'].id and lp[0]['w'].id == c['sw'].id), is_row_of(I, lp[0]['grid_i'], c['X'], i), to_real(tz(lp[0]['s2'])) == S_pre.elem(i))))
+        a = bw[0]['args']
+        if mode == 'fpoints':
+            ok = len(tn) == 1 and tn[0]['which'] == 'points'
+            out.append(('with-a-positive-fraction-of-points-the-width-is-tuned-by-the-fraction-of-points (tolerance: one descriptor)', BoolVal(ok)))
+            if ok:
+                t = tn[0]['args']
+                out.append(('...for-this-grid-point-with-the-grid-the-grid-weights-and-the-global-scale',
+                            And(BoolVal(t['X'].id == c['X'].id and t['sample_weights'].id == c['sw'].id), tz(t['idx']) == i, to_real(tz(t['delta'])) == 1 / z3.ToReal(c['n']), to_real(tz(t['tune'])) == TRACE(z3.Lambda([a_, b_], c['global_cov'].elem(a_, b_)), c['d']))))
+                out.append(('the-estimation-uses-the-tuned-local-weights-and-populations', BoolVal(a['wlocal'].id == tn[0]['out'][2].id and a['flocal'].id == tn[0]['out'][1].id)))
+        else:
+            # the spread tuning is taken exactly when the width is below the measured population
+            took = len(tn) == 1
+            cond = S_pre.elem(i) < lp[0]['num']
+            out.append(('the-width-is-re-localised-on-the-nearest-grid-distance-exactly-when-it-is-below-the-measured-population', cond if took else Not(cond)))
+            if took:
+                t = tn[0]['args']
+                out.append(('...for-this-grid-point-with-the-nearest-grid-distances', And(BoolVal(tn[0]['which'] == 'spread' and t['X'].id == c['X'].id and t['sample_weights'].id == c['sw'].id and t['mindist'].id == c['md'].id), tz(t['idx']) == i)))
+                out.append(('the-estimation-uses-the-tuned-local-weights-and-populations', BoolVal(a['wlocal'].id == tn[0]['out'][2].id and a['flocal'].id == tn[0]['out'][1].id)))
+            else:
+                out.append(('the-estimation-uses-the-measured-local-weights', BoolVal(a['wlocal'].id == lp[0]['wl'].id)))
+        out.append(('the-estimation-is-made-for-this-grid-point-on-the-grid', And(BoolVal(a['X'].id == c['X'].id), tz(a['idx']) == i)))
+        B = I.A(o.attrs['bandwidth_']); C = I.A(o.attrs['_covariance']); x, y = I.fresh('x', IntS), I.fresh('y', IntS); I.assume(And(0 <= x, x < c['d'], 0 <= y, y < c['d']))
+        out.append(('the-estimated-bandwidth-and-covariance-are-stored-for-this-grid-point', And(B.elem(i, x, y) == I.A(bw[0]['h']).elem(x, y), C.elem(i, x, y) == I.A(bw[0]['cov']).elem(x, y))))
+        return out
+    def body(I):
+        g, d, n = I.fresh('g', IntS), I.fresh('d', IntS), I.fresh('n', IntS); I.assume(And(g >= 1, d >= 1, n >= 1))
+        X = I.fresh_arr('grid', (g, d)); sw = I.fresh_arr('grid_weights', (g,)); md = I.fresh_arr('mindist', (g,)); D = I.fresh_arr('descriptors', (n, d))
+        fp = I.fresh('fpoints', RealS); fs = I.fresh('fspread', RealS)
+        I.assume(And(fp > 0, fs <= 0) if mode == 'fpoints' else And(fp <= 0, fs > 0))
+        I.cur = dict(g=g, d=d, n=n, X=X, sw=sw, md=md, cell=None)
+        cls = I.repo.get(KD); me = I.new_obj(cls, dict(cell=None, descriptors=D, fpoints=fp, fspread=fs, verbose=False))
+        # the global scale: trace of the global covariance (free space)
+        I.cur['tune'] = None
+        class _T: pass
+        def after_cov(I2, F): pass
+        r = I.call_func(I.find_method(cls, '_computes_localized_bandwidth'), [me, X, sw, md], {})
+        ga = I.cur.get('global_cov_args')
+        I.ob('post[C17]:the-global-scale-is-taken-from-the-covariance-of-the-grid-with-the-grid-weights', BoolVal(ga is not None and ga['X'].id == X.id and ga['sample_weights'].id == sw.id and ga['cell'] is None), kind='post')
+        o = I.O(me); B = I.A(o.attrs['bandwidth_'])
+        I.ob('post[C17]:one-bandwidth-per-grid-point', And(tz(B.shape[0]) == g, tz(B.shape[1]) == d, tz(B.shape[2]) == d), kind='post')
+    funcs = {SK + '._local_population': lp_contract(), SK + '._covariance': cov_contract(),
+             KD + '._tune_localization_factor_based_on_fraction_of_points': tune_contract('points'), KD + '._tune_localization_factor_based_on_fraction_of_spread': tune_contract('spread'),
+             KD + '._bandwidth_estimation_from_localization': bw_contract()}
+    lc = LoopContract(inv, hints=hints)
+    return Unit(f'SparseKDE._computes_localized_bandwidth[{mode}]', body, funcs=funcs, loops={(q, 0): lc}, functions=[q])
+
+UNITS = [lambda: u_mixture(False), lambda: u_mixture(True), lambda: u_tune_spread(False), lambda: u_tune_spread(True), lambda: u_localized_bandwidth('fpoints'), lambda: u_localized_bandwidth('fspread'), lambda: u_local_population(False), lambda: u_local_population(True), lambda: u_oas(), lambda: u_covariance(), lambda: u_bandwidth()] + [(lambda w, s_: (lambda: u_cached(w, s_)))(w, s_) for w in ('_bandwidth_inv', '_normkernels') for s_ in ('unfitted', 'first', 'cached')]
 RT = False
 TRUSTED = ["finite-sum functionals SUMD / SUMARR, exp, log, matrix inverse and log|det| uninterpreted functions of their arguments: equal arguments give equal values (congruence on identical lambda terms)",
            "mixture loop: scipy.special.logsumexp as 'expn(result) = sum of expn(entries)' with expn(-inf) = 0; law of boolean-mask selection and finite sums (summing h over the members selected by a mask, in order, = summing over all members h where the mask holds and 0 elsewhere; assumed as an instance, conditional on the proved fact that the code's mask is the documented one); "
